@@ -648,10 +648,17 @@ class Partition:
         # Chec inputs and define rectangles
         rectangles = []
         for bbox in bboxes:
-            fmin = bbox.get("fmin", float(ds.freq.min())) or float(ds.freq.min())
-            fmax = bbox.get("fmax", float(ds.freq.max())) or float(ds.freq.max())
-            dmin = bbox.get("dmin", float(ds.dir.min())) or float(ds.dir.min())
-            dmax = bbox.get("dmax", float(ds.dir.max())) or float(ds.dir.max())
+            # Bounds missing or set to None default to the spectrum bounds, note that
+            # zero is a valid bound (e.g., dmax=0 for northerly waves only)
+            fmin, fmax, dmin, dmax = [
+                float(default) if bbox.get(key) is None else bbox[key]
+                for key, default in [
+                    ("fmin", ds.freq.min()),
+                    ("fmax", ds.freq.max()),
+                    ("dmin", ds.dir.min()),
+                    ("dmax", ds.dir.max()),
+                ]
+            ]
 
             if fmin >= fmax:
                 raise ValueError(f"fmin {fmin} Hz >= fmax {fmax} Hz")
